@@ -1,7 +1,27 @@
 #!/usr/bin/env python3
 """writes the seeded-change table (DESIGN.md section 10.5) from seeded/*/meta.json"""
 import glob, json, os, re
-FIRST_MISSED = {"C09-A": "no obligation with an explicit random_state + resample='syst'", "C09-B": "replay used fixed seeds instead of the model's (seed 0)",
+FIRST_MISSED = {
+    "C03-5A": "the replay of wrapped RWM moves looked at the acceptance factor of the proposal only, not at the point handed to the user's functions in a full step (exit 3)",
+    "C07-5B": "not a violation on the repaired head: fix 90a1e27 copies the vectorised likelihood output, the demonstration passes with the change applied",
+    "C08-5B": "tempfile.mkstemp / os.fdopen were not modelled in the file-system double (harness error, exit 3)",
+    "C09-5A": "the replay passed Python ints only; the symbolic seed stands for an integer of any representation (exit 3)",
+    "C09-5B": "the builtin hash() of text (salted per interpreter) was not treated as an entropy source outside the seed",
+    "C11-5B": "C11 had no warm-up obligation with blobs (C07 reported it); C07's obligation is now imported",
+    "C12-5B": "the evidence-after-run obligation existed for fresh runs only; resumed run without a further iteration added",
+    "C13-5A": "the replay pool completed tasks in reversed order - an involution, for which applying the permutation twice is right (exit 3)",
+    "C13-5B": "patch ported (repair 90a1e27 touched the same lines); the resume obligation stopped before the first resumed iteration",
+    "C15-5B": "that fit() hands normalised weights to the EM steps was an assumption of the step obligations; now an obligation of its own",
+    "C16-5A": "index sets were sorted numpy arrays only; the sampler passes the user's Python lists in the user's order",
+    "C16-5B": "every call got fresh index arrays; the runners pass the same list objects on every iteration",
+    "C17-5A": "no operation with a refused strict commit",
+    "C17-5B": "no history with batches of different size",
+    "C18-5A": "the running clause was only exercised through the training step; construction-time wiring of the steps added",
+    "C18-5B": "the pool option was not a dimension of the configuration lattice",
+    "C19-5A": "inconclusive at first (exit 3): the symbolic obligations run one ECME iteration and three of them exhaust their budget on the extra branch; a common scale on every coordinate with two scripted iterations added (scale-common)",
+    "C19-5B": "the configured fallback was always above the finite fitted dof",
+    "C20-5A": "patch ported (repair c52ae6f touched trim_weights); reported at the first evaluation",
+"C09-A": "no obligation with an explicit random_state + resample='syst'", "C09-B": "replay used fixed seeds instead of the model's (seed 0)",
     "C06-B": "random stub had no multinomial / no model of numpy's sum tolerance", "C04-B": "finiteness for large magnitudes was outside the claim (range abstraction added)",
     "C10-A": "same: evidence underflow for shifts of -735 nats", "C10-B": "no volume-mode obligation in C10", "C08-A": "save was exercised before any likelihood call; pickler double accepted pool objects",
     "C08-B": "n_total of the resuming call was not observed", "C03-A": "only nu=3 was encoded; draw-order mismatch was silently cut", "C03-B": "symbolic mode statistics bypassed ModeStatistics.__init__",
@@ -60,11 +80,15 @@ for d in sorted(glob.glob(os.path.join(os.path.dirname(__file__), "..", "seeded"
     else:
         sigs_cc = []
     sigs = sigs or sigs_cc
+    if m.get("confirmed") is False:
+        status = "not a violation on the repaired head (demonstration passes); check exit 0"
     rows.append((key, m.get("confirmed"), status, m.get("check_wall_s"), what.replace("|", "/"), (sigs[0] if sigs else "").replace("|", "/"), FIRST_MISSED.get(key, "")))
 print("| change | confirmed | quick check | wall s | what it is | reported as | first missed because |")
 print("|---|---|---|---|---|---|---|")
 for r in rows:
     print("| " + " | ".join(str(x) for x in r) + " |")
-n = len(rows); c = sum(1 for r in rows if r[2].startswith("caught"))
+n = sum(1 for r in rows if r[1] is not False); c = sum(1 for r in rows if r[2].startswith("caught"))
+u = len(rows) - n
 x = sum(1 for r in rows if "caught by" in r[2])
-print(f"\n{c} of {n} confirmed changes are reported as VIOLATION by the quick tier of the property they target; {x} more by the quick tier of another property.")
+print(f"\n{c} of {n} confirmed changes are reported as VIOLATION by the quick tier of the property they target; {x} more by the quick tier of another property"
+      + (f"; {u} stored change(s) turned out not to break the property on the repaired head and are not counted." if u else "."))
